@@ -9,7 +9,10 @@ package db
 //           exists and (for Get) while it holds the value lock
 //   mid     0..3 operations executed while the load is parked: put / upsert / remove / removecv /
 //           get (joins the placeholder) / getother-key / getactive / peek / fill (other documents,
-//           item- or byte-eviction pressure) / removeall
+//           item- or byte-eviction pressure) / removeall / invalidate (the model document's channels
+//           change without a new revision or version - its "channel epoch" is bumped - and both of its
+//           keys are removed, as the feed does for a metadata-only update: whatever was computed from a
+//           document read before that must not be resident or served afterwards)
 //   then    the parked load is released as success or failure, everything is joined, and the
 //           content, structure and gauge oracles of c16_test.go run at rest.
 //
@@ -41,7 +44,7 @@ func (s c16Script) shape() string {
 	return fmt.Sprintf("first=%s@%s|load=%s|mid=%s", s.First, s.Stage, s.Outcome, strings.Join(s.Mid, ","))
 }
 
-var c16MidOps = []string{"put", "upsert", "remove", "removecv", "get", "getotherkey", "getactive", "peek", "fill", "removeall"}
+var c16MidOps = []string{"put", "upsert", "remove", "removecv", "get", "getotherkey", "getactive", "peek", "fill", "removeall", "invalidate"}
 
 type c16Async struct {
 	op     string
@@ -51,10 +54,11 @@ type c16Async struct {
 	got    bool // a revision was returned (Get/GetActive, or Peek found one)
 	key    c16Key
 	peeked bool
+	epoch0 int // the document's channel epoch when the operation started
 }
 
-func c16Go(op string, key c16Key, fn func(a *c16Async)) *c16Async {
-	a := &c16Async{op: op, key: key, done: make(chan struct{})}
+func c16Go(op string, key c16Key, epoch0 int, fn func(a *c16Async)) *c16Async {
+	a := &c16Async{op: op, key: key, epoch0: epoch0, done: make(chan struct{})}
 	go func() {
 		defer close(a.done)
 		fn(a)
@@ -113,17 +117,17 @@ func TestVerif_C16_Scripts(t *testing.T) {
 		scripts = append(scripts, c16Script{First: f.first, Stage: f.stage, Outcome: vlib.Pick(r, []string{"ok", "fail", "fail"}),
 			Mid: []string{vlib.Pick(r, c16MidOps), vlib.Pick(r, c16MidOps), vlib.Pick(r, c16MidOps)}, Cap: cp, MaxBytes: mb})
 	}
-	reported := 0
+	reported := map[string]bool{} // distinct signatures itemised so far
 	for i, sc := range scripts {
 		if only, ok := run.OnlyCase(); ok && only != i {
 			continue
 		}
-		c16RunScript(t, run, i, sc, &reported)
+		c16RunScript(t, run, i, sc, reported)
 	}
 	run.Count("scripts", len(scripts))
 }
 
-func c16RunScript(t *testing.T, run *vlib.Run, idx int, sc c16Script, reported *int) {
+func c16RunScript(t *testing.T, run *vlib.Run, idx int, sc c16Script, reported map[string]bool) {
 	ctx := base.TestCtx(t)
 	r := run.CaseRand(idx)
 	u := c16NewUniverse(t, r, 3, false, "s")
@@ -133,14 +137,27 @@ func c16RunScript(t *testing.T, run *vlib.Run, idx int, sc c16Script, reported *
 	var trace []string
 	note := func(f string, a ...any) { trace = append(trace, fmt.Sprintf(f, a...)) }
 	viol := func(oracle, sig, msg string) {
-		if *reported >= 12 && !strings.Contains(sig, "writer-sizes-placeholder") {
+		if reported[sig] {
+			return
+		}
+		if len(reported) >= 16 {
 			run.Count("violations_not_itemised", 1)
 			return
 		}
-		*reported++
+		reported[sig] = true
 		run.Violation(oracle, sig, msg, map[string]any{"case": idx, "script": sc, "trace": trace})
 	}
 
+	// one violation per script for "content computed before an invalidation is still resident / served"; the
+	// signature names the parked load, not the whole script
+	staleReported := false
+	reportStale := func(where, msg string) {
+		if staleReported {
+			return
+		}
+		staleReported = true
+		viol("no-stale-value-after-invalidation", "C16|scripts|invalidation-while-load-parked|first="+sc.First+"@"+sc.Stage+"|value-computed-before-the-invalidation-resident-or-served", where+": "+msg+" (script "+sc.shape()+")")
+	}
 	kRev, kCV := u.keyOf(0, "rev"), u.keyOf(0, "cv")
 	K := kRev
 	if sc.First == "get-cv" {
@@ -153,13 +170,13 @@ func c16RunScript(t *testing.T, run *vlib.Run, idx int, sc c16Script, reported *
 	gate := st.setGate(sc.Stage, gateID)
 
 	get := func(op string, k c16Key) *c16Async {
-		return c16Go(op, k, func(a *c16Async) {
+		return c16Go(op, k, st.curEpoch(k.Doc), func(a *c16Async) {
 			a.rev, _, a.err = cc.c.Get(ctx, k.Doc, k.Ver, c16CollID, RevCacheDontLoadBackupRev)
 			a.got = true
 		})
 	}
 	getActive := func(op string) *c16Async {
-		return c16Go(op, kRev, func(a *c16Async) {
+		return c16Go(op, kRev, st.curEpoch(kRev.Doc), func(a *c16Async) {
 			a.rev, _, a.err = cc.c.GetActive(ctx, kRev.Doc, c16CollID)
 			a.got = true
 		})
@@ -192,12 +209,14 @@ func c16RunScript(t *testing.T, run *vlib.Run, idx int, sc c16Script, reported *
 
 	var asyncs []*c16Async
 	writerSizedPlaceholder := false
+	invalidations := 0
 	for _, m := range sc.Mid {
 		switch m {
 		case "put":
 			before := cc.stats.cacheMemoryStat.Value()
 			target := mapped(kCV)
-			a := c16Go("put", kCV, func(a *c16Async) { a.err = cc.c.Put(ctx, u.putRev(kCV), c16CollID) })
+			pr := u.putRev(kCV) // a writer holds the document as it is now
+			a := c16Go("put", kCV, st.curEpoch(kCV.Doc), func(a *c16Async) { a.err = cc.c.Put(ctx, pr, c16CollID) })
 			// settle: finished, or its bytes were counted (it then waits for the value lock)
 			for i := 0; i < 200 && !a.wait(50*time.Microsecond); i++ {
 				if cc.stats.cacheMemoryStat.Value() != before {
@@ -237,17 +256,21 @@ func c16RunScript(t *testing.T, run *vlib.Run, idx int, sc c16Script, reported *
 				o = kRev
 			}
 			a := get("getotherkey", o)
-			a.wait(300 * time.Microsecond)
+			a.wait(10 * time.Second) // a value of its own: completes
 			asyncs = append(asyncs, a)
 			note("get(%s) started", o.id())
 		case "getactive":
 			a := getActive("getactive")
-			a.wait(300 * time.Microsecond)
+			if K == kRev {
+				a.wait(300 * time.Microsecond) // joins the parked placeholder
+			} else {
+				a.wait(10 * time.Second) // a value of its own: completes (and so cannot straddle a later invalidate)
+			}
 			asyncs = append(asyncs, a)
 			note("getactive(%s) started", kRev.Doc)
 		case "peek":
 			// on its own goroutine: a Peek that honours the value lock waits for the parked load
-			a := c16Go("peek", K, func(a *c16Async) {
+			a := c16Go("peek", K, st.curEpoch(K.Doc), func(a *c16Async) {
 				var found bool
 				a.rev, found = cc.c.Peek(ctx, K.Doc, K.Ver, c16CollID)
 				a.peeked, a.got = true, found
@@ -255,6 +278,12 @@ func c16RunScript(t *testing.T, run *vlib.Run, idx int, sc c16Script, reported *
 			a.wait(300 * time.Microsecond)
 			asyncs = append(asyncs, a)
 			note("peek(%s) started", K.id())
+		case "invalidate":
+			ep := st.bump(K.Doc)
+			invalidations++
+			cc.c.Remove(ctx, kRev.Doc, kRev.Ver, c16CollID)
+			cc.c.Remove(ctx, kCV.Doc, kCV.Ver, c16CollID)
+			note("invalidate: channel epoch of %s -> %d, Remove(%s), Remove(%s); K still mapped to placeholder: %v", K.Doc, ep, kRev.id(), kCV.id(), mapped(K) == v0)
 		case "fill":
 			for di := 1; di <= 2; di++ {
 				if err := cc.c.Put(ctx, u.putRev(u.keyOf(di, "cv")), c16CollID); err != nil {
@@ -300,7 +329,9 @@ func c16RunScript(t *testing.T, run *vlib.Run, idx int, sc c16Script, reported *
 			viol("content", "C16|scripts|"+sc.shape()+"|first|no-error-although-its-load-failed", fmt.Sprintf("%+v", c16Render(a.rev)))
 		case a.err == nil:
 			run.Count("returned_revisions_checked", 1)
-			if bad, want, got := u.checkRev(k, a.rev); len(bad) > 0 {
+			if bad, stale, want, got := u.checkRevRange(k, a.rev, a.epoch0, st.curEpoch(k.Doc)); stale {
+				reportStale(a.op, fmt.Sprintf("started at channel epoch %d, got %+v", a.epoch0, got))
+			} else if len(bad) > 0 {
 				viol("content", "C16|scripts|"+sc.shape()+"|"+a.op+"|wrong-"+strings.Join(bad, "+"), fmt.Sprintf("got %+v want %+v", got, want))
 			}
 		}
@@ -327,6 +358,10 @@ func c16RunScript(t *testing.T, run *vlib.Run, idx int, sc c16Script, reported *
 				}
 				continue
 			}
+			if f.Oracle == "no-stale-value-after-invalidation" {
+				reportStale(stage, f.Detail)
+				continue
+			}
 			viol(f.Oracle, "C16|scripts|"+class+"|"+stage+"|"+f.What, f.Detail)
 		}
 	}
@@ -335,7 +370,11 @@ func c16RunScript(t *testing.T, run *vlib.Run, idx int, sc c16Script, reported *
 		if rev, found := cc.c.Peek(ctx, k.Doc, k.Ver, c16CollID); found {
 			run.Count("returned_revisions_checked", 1)
 			if bad, want, got := u.checkRev(k, rev); len(bad) > 0 {
-				viol("content", "C16|scripts|"+class+"|peek-at-rest-wrong-"+strings.Join(bad, "+"), fmt.Sprintf("Peek(%s) got %+v want %+v", k.id(), got, want))
+				if e, stale := u.staleEpoch(k.id(), st.curEpoch(k.Doc), got); stale {
+					reportStale("peek-at-rest", fmt.Sprintf("Peek(%s) serves the channels of update %d, the store is at update %d: %+v", k.id(), e, st.curEpoch(k.Doc), got))
+				} else {
+					viol("content", "C16|scripts|"+class+"|peek-at-rest-wrong-"+strings.Join(bad, "+"), fmt.Sprintf("Peek(%s) got %+v want %+v", k.id(), got, want))
+				}
 			}
 		}
 	}
@@ -343,7 +382,11 @@ func c16RunScript(t *testing.T, run *vlib.Run, idx int, sc c16Script, reported *
 	if rev, _, err := cc.c.Get(ctx, K.Doc, K.Ver, c16CollID, RevCacheDontLoadBackupRev); err != nil {
 		viol("content", "C16|scripts|"+class+"|get-at-rest|unexpected-error", err.Error())
 	} else if bad, want, got := u.checkRev(K, rev); len(bad) > 0 {
-		viol("content", "C16|scripts|"+class+"|get-at-rest|wrong-"+strings.Join(bad, "+"), fmt.Sprintf("got %+v want %+v", got, want))
+		if e, stale := u.staleEpoch(K.id(), st.curEpoch(K.Doc), got); stale {
+			reportStale("get-at-rest", fmt.Sprintf("Get(%s) serves the channels of update %d, the store is at update %d: %+v", K.id(), e, st.curEpoch(K.Doc), got))
+		} else {
+			viol("content", "C16|scripts|"+class+"|get-at-rest|wrong-"+strings.Join(bad, "+"), fmt.Sprintf("got %+v want %+v", got, want))
+		}
 	}
 	findings2, _ := cc.quiescent(u)
 	judge("after-read-at-rest", findings2)
@@ -363,6 +406,9 @@ func c16RunScript(t *testing.T, run *vlib.Run, idx int, sc c16Script, reported *
 	run.Distinct("script_shapes", sc.shape())
 	if replaced || sc.Outcome == "fail" {
 		run.Count("scripts_placeholder_replaced_or_failed", 1)
+	}
+	if invalidations > 0 {
+		run.Count("scripts_with_invalidation_during_parked_load", 1)
 	}
 	if idx < 2 {
 		run.Sample(map[string]any{"script": sc, "trace": trace})
